@@ -319,7 +319,7 @@ func (cs *Contracts) loadFile(path string, pkgPath string, isExternFile bool) er
 			if err != nil {
 				return fail(l, "%v", err)
 			}
-			if te.Kind != SSel {
+			if te.Kind != SSel && te.Kind != SIdent {
 				return fail(l, "ghost assignment target must be a ghost field x.f")
 			}
 			cur.Ghost = append(cur.Ghost, &GhostAssign{Target: te, Value: ve, Src: rest, File: l.file, Line: l.line})
